@@ -198,6 +198,21 @@ Theorem C03_default_rule_facts : forall tpl : its,
 Proof. exact default_rc_facts. Qed.
 Print Assumptions C03_default_rule_facts.
 
+(** REFUTED for templates that write hydrogen changes implicitly and are used without implicit_temp=True: clause (c)'s
+    "hydrogen-count changes of its end atoms" fails — the rule prepared in default mode has no hydrogen change at all
+    ([C03_synrule_default_noH]), so a matched atom of the proposed ITS can differ from its template atom in hydrogen
+    change although every hypothesis of the glue theorems holds and the template is balanced.  Witness: thioester
+    formation [SH:2].[C:4][OH:6] >> [S:2][C:4].[OH2:6] on CH3SH . CH3COOH (known finding
+    implicit-template-in-explicit-mode; the docstring asks for implicit_temp=True, the constructor does not enforce it;
+    clauses (a), (b) still hold by the theorems above). *)
+Theorem C03_default_mode_implicit_template_refuted :
+  exists (tpl rc : its) (l r : molg) (host : hostg) (m : mapping) (T : its) (p h : N) (pn a : inode),
+    balancedb tpl = true /\ synrule tpl true = Some (rc, l, r) /\
+    wf_hostb host = true /\ wf_rcb rc = true /\ match_rcb host rc m = true /\ glue host rc m = Some T /\
+    In (p, pn) (gnodes tpl) /\ mget m p = Some h /\ label T h = Some a /\ dH a <> dH pn.
+Proof. exact default_mode_implicit_template_refuted. Qed.
+Print Assumptions C03_default_mode_implicit_template_refuted.
+
 (** default mode, ANY template (explicit hydrogens allowed) — PARTIAL.  Whatever the three steps of _strip_explicit_h
     decide, the rule handed to the reactor is the template with some explicit HYDROGEN atoms removed: the remaining
     atoms in the same order with the same element, aromaticity, charge and neighbors on both sides (only the hydrogen
